@@ -187,6 +187,20 @@ def check_string(ctx, s, alpha, klass):
         except Exception as err:
             ctx.violation("wrong-exception-type", [fname, type(err).__name__, str(err)[:80]], case)
             continue
+        if exp is not None and got == exp and sum(map(ord, s)) % 3 == 0:
+            # the uuid that came back travels (a copy, a pickle) and is encoded again: the string of its number
+            import copy as _copy
+            import pickle as _pickle
+            trav = [_copy.copy(got), _copy.deepcopy(got), _pickle.loads(_pickle.dumps(got)), uuid.UUID(int=got.int)][sum(map(ord, s)) // 3 % 4]
+            try:
+                again = short_uuid.uuid_to_short_str(trav)
+            except Exception as err:
+                ctx.violation("encode-raises", [fname, type(err).__name__, str(err)[:80]], case)
+                continue
+            ctx.count("decoded_uuids_copied_and_encoded_again")
+            if again != model_encode(exp.int, alpha):
+                ctx.violation("encoding-differs-from-model", [again, model_encode(exp.int, alpha)], case)
+                continue
         if exp is None:
             ctx.violation("invalid-string-accepted", [fname, s, str(got)], case)
         elif got != exp:
